@@ -628,6 +628,163 @@ fn m18_parked_writer_vs_local_shutdown() {
     report("m18_parked_writer_vs_local_shutdown");
 }
 
+// ---- the copy-bidirectional bridge takes its credit through the same protocol
+
+/// A local side for the bridge: `data` is readable at once, then end-of-stream; writes are accepted whole.
+struct LoomLocal {
+    data: &'static [u8],
+    pos: usize,
+}
+
+impl tokio::io::AsyncRead for LoomLocal {
+    fn poll_read(mut self: core::pin::Pin<&mut Self>, _: &mut Context<'_>, buf: &mut tokio::io::ReadBuf<'_>) -> Poll<std::io::Result<()>> {
+        let n = (self.data.len() - self.pos).min(buf.remaining());
+        buf.put_slice(&self.data[self.pos..self.pos + n]);
+        self.pos += n;
+        Poll::Ready(Ok(()))
+    }
+}
+
+impl tokio::io::AsyncBufRead for LoomLocal {
+    fn poll_fill_buf(self: core::pin::Pin<&mut Self>, _: &mut Context<'_>) -> Poll<std::io::Result<&[u8]>> {
+        let this = self.get_mut();
+        Poll::Ready(Ok(&this.data[this.pos..]))
+    }
+    fn consume(mut self: core::pin::Pin<&mut Self>, amt: usize) {
+        self.pos += amt;
+    }
+}
+
+impl tokio::io::AsyncWrite for LoomLocal {
+    fn poll_write(self: core::pin::Pin<&mut Self>, _: &mut Context<'_>, buf: &[u8]) -> Poll<std::io::Result<usize>> {
+        Poll::Ready(Ok(buf.len()))
+    }
+    fn poll_flush(self: core::pin::Pin<&mut Self>, _: &mut Context<'_>) -> Poll<std::io::Result<()>> {
+        Poll::Ready(Ok(()))
+    }
+    fn poll_shutdown(self: core::pin::Pin<&mut Self>, _: &mut Context<'_>) -> Poll<std::io::Result<()>> {
+        Poll::Ready(Ok(()))
+    }
+}
+
+/// Drive a bridge to completion on this thread; when it is `Pending`, sleep until its waker fires
+/// (a lost wake-up is a deadlock for loom).
+fn bridge_runs(stream: MuxStream, data: &'static [u8]) -> std::io::Result<(usize, usize)> {
+    use core::future::Future;
+    let nw = std::sync::Arc::new(NotifyWaker {
+        notify: Notify::new(),
+        wakes: loom::sync::atomic::AtomicUsize::new(0),
+    });
+    let waker = Waker::from(nw.clone());
+    let mut cx = Context::from_waker(&waker);
+    let mut bridge = crate::stream_tools::copy_bidirectional::CopyBidirectional::new(stream, LoomLocal { data, pos: 0 });
+    loop {
+        match core::pin::Pin::new(&mut bridge).poll(&mut cx) {
+            Poll::Ready(r) => return r,
+            Poll::Pending => nw.notify.wait(),
+        }
+    }
+}
+
+/// Parts for the bridge models: the peer's direction has already ended (its queue is closed), so the bridge
+/// completes as soon as the local -> mux direction does.
+fn bridge_parts(credit: u32) -> (MuxStream, EstablishedStreamData, mpsc::UnboundedReceiver<Message>, mpsc::UnboundedReceiver<u32>) {
+    let Parts {
+        stream,
+        mut data,
+        tx_msg_rx,
+        _rx_frame_tx,
+        _dropped_rx,
+    } = parts(credit);
+    data.sender = None;
+    drop(_rx_frame_tx);
+    (stream, data, tx_msg_rx, _dropped_rx)
+}
+
+fn pushes_and_finishes(rx: &mut mpsc::UnboundedReceiver<Message>) -> (alloc::vec::Vec<u8>, usize, usize) {
+    let (mut bytes, mut pushes, mut finishes) = (alloc::vec::Vec::new(), 0, 0);
+    while let Ok(m) = rx.try_recv() {
+        if let Message::Binary(b) = m {
+            let f = crate::frame::Frame::try_from(b).expect("frame");
+            match f.opcode() {
+                crate::frame::OpCode::Push => {
+                    pushes += 1;
+                    if let crate::frame::Payload::Push(p) = &f.payload {
+                        match p {
+                            crate::frame::PushPayload::Single(d) => bytes.extend_from_slice(d.as_ref()),
+                            crate::frame::PushPayload::Vectored(v) => v.iter().for_each(|d| bytes.extend_from_slice(d.as_ref())),
+                        }
+                    }
+                }
+                crate::frame::OpCode::Finish => finishes += 1,
+                _ => {}
+            }
+        }
+    }
+    (bytes, pushes, finishes)
+}
+
+/// 19. the bridge has local data and no credit ∥ `acknowledge(1)`: the grant must wake the bridge, which then
+/// sends exactly one Push, half-closes and completes
+#[test]
+fn m19_bridge_waits_for_credit_vs_acknowledge() {
+    model(|| {
+        let (stream, data, mut tx_msg_rx, _d) = bridge_parts(0);
+        let w = thread::spawn(move || bridge_runs(stream, b"ab"));
+        data.acknowledge(1);
+        let r = w.join().expect("bridge").map_err(|e| e.kind());
+        assert_eq!(r, Ok((0, 2)), "bridge result");
+        let (bytes, pushes, finishes) = pushes_and_finishes(&mut tx_msg_rx);
+        assert_eq!((bytes.as_slice(), pushes, finishes), (&b"ab"[..], 1, 1));
+        assert_eq!(data.psh_send_remaining.load(Ordering::SeqCst), 0, "one unit granted, one frame sent");
+        outcome(format!("{r:?}"));
+    });
+    report("m19_bridge_waits_for_credit_vs_acknowledge");
+}
+
+/// 20. the bridge has local data and no credit ∥ the task closes the flow: the bridge must be woken and fail
+/// with BrokenPipe, nothing is sent
+#[test]
+fn m20_bridge_waits_for_credit_vs_close() {
+    model(|| {
+        let (stream, data, mut tx_msg_rx, _d) = bridge_parts(0);
+        let w = thread::spawn(move || bridge_runs(stream, b"ab"));
+        data.disallow_write();
+        let r = w.join().expect("bridge").map_err(|e| e.kind());
+        assert_eq!(r, Err(std::io::ErrorKind::BrokenPipe), "bridge result");
+        let (_, pushes, _) = pushes_and_finishes(&mut tx_msg_rx);
+        assert_eq!(pushes, 0, "no Push without credit");
+        outcome(format!("{r:?}"));
+    });
+    report("m20_bridge_waits_for_credit_vs_close");
+}
+
+/// 21. the bridge has one unit of credit ∥ a grant of one more ∥ a close: whatever the order, every Push on the
+/// queue took a unit, and the bridge either completes (all bytes sent, one Finish at most) or fails with BrokenPipe
+#[test]
+fn m21_bridge_vs_acknowledge_vs_close() {
+    model(|| {
+        let (stream, data, mut tx_msg_rx, _d) = bridge_parts(0);
+        let data = Arc::new(data);
+        let d2 = data.clone();
+        let w = thread::spawn(move || bridge_runs(stream, b"ab"));
+        let g = thread::spawn(move || d2.acknowledge(1));
+        data.disallow_write();
+        g.join().expect("grant");
+        let r = w.join().expect("bridge").map_err(|e| e.kind());
+        let (bytes, pushes, _) = pushes_and_finishes(&mut tx_msg_rx);
+        let left = data.psh_send_remaining.load(Ordering::SeqCst);
+        assert_eq!(u32::try_from(pushes).expect("count") + left, 1, "credit conserved");
+        match r {
+            Ok((0, 2)) => assert_eq!((bytes.as_slice(), pushes), (&b"ab"[..], 1)),
+            Err(std::io::ErrorKind::BrokenPipe) => assert!(pushes <= 1),
+            other => panic!("unexpected bridge result {other:?}"),
+        }
+        outcome(format!("{r:?} pushes={pushes}"));
+    });
+    report("m21_bridge_vs_acknowledge_vs_close");
+}
+
 // ---- flow-id allocation under concurrent opens (supplements the scheduler-level checks)
 
 #[derive(Debug)]
